@@ -631,3 +631,140 @@ pub fn run_c10(a: &Args) {
     }
     out.finish();
 }
+
+// ---------------------------------------------------------------------------
+// C07: differences of civil types and timestamps
+
+fn jspan_res(r: &Result<Result<Span, jiff::Error>, String>) -> (&'static str, Value) {
+    match r {
+        Ok(Ok(s)) => ("ok", jspan(s)),
+        Ok(Err(_)) => ("err", jspan(&Span::new())),
+        Err(_) => ("panic", jspan(&Span::new())),
+    }
+}
+
+fn until_date(a: Date, b: Date, ui: usize, cls: &str) -> Value {
+    let u = UNITS[ui].0;
+    let r = guard(|| a.until((u, b)));
+    let rs = guard(|| a.since((u, b)));
+    let d = guard(|| a.duration_until(b));
+    let (st, span) = jspan_res(&r);
+    let (sst, since) = jspan_res(&rs);
+    let (dsec, dns) = d.map(jdur).unwrap_or((big(0), -1));
+    json!({"op":"until_date","cls":cls,"a":jdate(a),"b":jdate(b),"largest":UNITS[ui].1,"st":st,"span":span,"sst":sst,"since":since,
+           "dsec":dsec,"dns":dns})
+}
+fn until_dt(a: DateTime, b: DateTime, ui: usize, cls: &str) -> Value {
+    let u = UNITS[ui].0;
+    let r = guard(|| a.until((u, b)));
+    let rs = guard(|| a.since((u, b)));
+    let d = guard(|| a.duration_until(b));
+    let (st, span) = jspan_res(&r);
+    let (sst, since) = jspan_res(&rs);
+    let (dsec, dns) = d.map(jdur).unwrap_or((big(0), -1));
+    json!({"op":"until_dt","cls":cls,"a":jdt(a),"b":jdt(b),"largest":UNITS[ui].1,"st":st,"span":span,"sst":sst,"since":since,
+           "dsec":dsec,"dns":dns})
+}
+fn until_time(a: Time, b: Time, ui: usize, cls: &str) -> Value {
+    let u = UNITS[ui].0;
+    let r = guard(|| a.until((u, b)));
+    let rs = guard(|| a.since((u, b)));
+    let d = guard(|| a.duration_until(b));
+    let (st, span) = jspan_res(&r);
+    let (sst, since) = jspan_res(&rs);
+    let (dsec, dns) = d.map(jdur).unwrap_or((big(0), -1));
+    json!({"op":"until_time","cls":cls,"a":jtime(a),"b":jtime(b),"largest":UNITS[ui].1,"st":st,"span":span,"sst":sst,"since":since,
+           "dsec":dsec,"dns":dns})
+}
+fn until_ts(a: Timestamp, b: Timestamp, ui: usize, cls: &str) -> Value {
+    let u = UNITS[ui].0;
+    let r = guard(|| a.until((u, b)));
+    let rs = guard(|| a.since((u, b)));
+    let d = guard(|| a.duration_until(b));
+    let (st, span) = jspan_res(&r);
+    let (sst, since) = jspan_res(&rs);
+    let (dsec, dns) = d.map(jdur).unwrap_or((big(0), -1));
+    json!({"op":"until_ts","cls":cls,"asec":big(a.as_second() as i128),"ans":a.subsec_nanosecond(),
+           "bsec":big(b.as_second() as i128),"bns":b.subsec_nanosecond(),"largest":UNITS[ui].1,"st":st,"span":span,
+           "sst":sst,"since":since,"dsec":dsec,"dns":dns})
+}
+
+pub fn run_c07(a: &Args) {
+    let mut out = Out::new(&a.out, "c07", 12_000);
+    let mut rng = Rng::new(a.seed, 7);
+    let quick = a.quick();
+    let dates = date_pool(&mut rng, if quick { 250 } else { 4000 });
+    let times = time_pool(&mut rng, if quick { 60 } else { 600 });
+    // (1) dates: structured neighbourhood pairs: b = a shifted by (years, months, days) around month ends
+    for &d in &dates {
+        for _ in 0..(if quick { 10 } else { 40 }) {
+            let ry = rng.range(-19998, 19998);
+            let dy = *rng.pick(&[0i64, 0, 1, -1, 4, -4, 100, ry]);
+            let dm = rng.range(-14, 14);
+            let rd = rng.range(-400, 400);
+            let dd = *rng.pick(&[0i64, 1, -1, 2, -2, 3, -3, 27, 28, 29, 30, 31, -28, -30, -31, rd]);
+            let y2 = (d.year() as i64 + dy).clamp(-9999, 9999);
+            let mtot = (d.month() as i64 - 1) + dm;
+            let y2 = (y2 + mtot.div_euclid(12)).clamp(-9999, 9999) as i16;
+            let m2 = (mtot.rem_euclid(12) + 1) as i8;
+            let base = Date::new(y2, m2, 1).unwrap();
+            let day2 = ((d.day() as i64 + dd).rem_euclid(31) + 1).min(base.days_in_month() as i64) as i8;
+            let b = Date::new(y2, m2, day2).unwrap();
+            for ui in 6..10usize {
+                let cls = if d.day() >= 28 || b.day() >= 28 { "month-end" } else if b < d { "negative" } else { "plain" };
+                out.emit(until_date(d, b, ui, cls));
+            }
+            // datetimes: equal / crossing times of day
+            let ta = *rng.pick(&times);
+            let tb = match rng.next() % 4 {
+                0 => ta,
+                1 => Time::MIN,
+                2 => Time::MAX,
+                _ => *rng.pick(&times),
+            };
+            let (da, db) = (DateTime::from_parts(d, ta), DateTime::from_parts(b, tb));
+            for ui in [9usize, 8, 7, 6, 5, (rng.next() % 5) as usize] {
+                let cls = if (tb < ta) != (db < da) && ta != tb { "time-crossing" } else if db < da { "negative" } else { "plain" };
+                out.emit(until_dt(da, db, ui, cls));
+            }
+        }
+    }
+    // limits
+    for (x, y) in [(Date::MIN, Date::MAX), (Date::MAX, Date::MIN), (Date::MIN, Date::MIN), (Date::constant(-9999, 1, 31), Date::constant(9999, 2, 28))] {
+        for ui in 0..10usize {
+            out.emit(until_date(x, y, ui, "limit"));
+            out.emit(until_dt(DateTime::from_parts(x, Time::MAX), DateTime::from_parts(y, Time::MIN), ui, "limit"));
+            out.emit(until_dt(DateTime::from_parts(x, Time::MIN), DateTime::from_parts(y, Time::MAX), ui, "limit"));
+        }
+    }
+    // (2) times
+    for (i, &ta) in times.iter().enumerate() {
+        for j in 0..(if quick { 12 } else { 60 }) {
+            let tb = times[(i * 5 + j * 7 + 1) % times.len()];
+            for ui in [5usize, 4, 3, (rng.next() % 3) as usize, 6 + (rng.next() % 4) as usize] {
+                out.emit(until_time(ta, tb, ui, if tb < ta { "negative" } else { "plain" }));
+            }
+        }
+    }
+    // (3) timestamps
+    let lo = Timestamp::MIN.as_nanosecond();
+    let hi = Timestamp::MAX.as_nanosecond();
+    let mut tss = vec![Timestamp::MIN, Timestamp::MAX, Timestamp::UNIX_EPOCH, Timestamp::new(0, -1).unwrap(), Timestamp::new(-1, -999_999_999).unwrap()];
+    for _ in 0..(if quick { 120 } else { 2000 }) {
+        tss.push(Timestamp::from_nanosecond(match rng.next() % 3 {
+            0 => rng.range128(-4_000_000_000_000_000_000, 4_000_000_000_000_000_000),
+            1 => rng.range128(-200_000_000_000_000, 200_000_000_000_000),
+            _ => rng.range128(lo, hi),
+        }).unwrap());
+    }
+    for (i, &ta) in tss.iter().enumerate() {
+        for j in 0..(if quick { 8 } else { 30 }) {
+            let tb = tss[(i * 3 + j * 11 + 1) % tss.len()];
+            for ui in [5usize, 3, (rng.next() % 6) as usize, 0, 6] {
+                let cls = if i < 5 || (i * 3 + j * 11 + 1) % tss.len() < 5 { "limit" } else if tb < ta { "negative" } else { "plain" };
+                out.emit(until_ts(ta, tb, ui, cls));
+            }
+        }
+    }
+    out.finish();
+}
